@@ -192,10 +192,11 @@ class BaseNode(Node):
         else:
             return value
 
-    def raw_value(self):
-        """ Raw (text) form of the value this node currently has
+    def raw_value(self, value=None):
+        """ Raw (text) form of the value this node currently has, or of a part of it
         """
-        value = self.value.value if isinstance(self.value, Type) else self.value
+        if value is None:
+            value = self.value.value if isinstance(self.value, Type) else self.value
         if value is None:
             return Keyword.NONE
         elif isinstance(value, (bool, np.bool_)):
@@ -226,6 +227,13 @@ class BaseNode(Node):
         else:                        # node import
             # inject the value the referenced node currently has (after all its modifications)
             node.value_raw = nodes[0].raw_value()
+            if node.value_slice and nodes[0].value is not None:
+                # the slice belongs to the reference: cut the referenced value here, once, whatever node receives it
+                value = nodes[0].slice_value(list(node.value_slice))
+                if isinstance(value, (list, np.ndarray)) and not node.dimension and node.keyword!='mod':
+                    raise Exception("Array value set to scalar node:", node.code, value)
+                node.value_raw = nodes[0].raw_value(value)
+                node.value_slice = None
             if not node.units_raw:
                 node.units_raw = nodes[0].units_raw
         
